@@ -92,8 +92,10 @@ def run(res, args):
     viol, seen_known = [], set()
     excuse_of = {}
 
-    def report(i, what, extra):
-        tags = [t for t in list(excuse_of.get(i, ())) + [what] ]
+    def report(i, what, extra, scope=None):
+        # an excuse (known finding present in the source) counts only where it can act: in the element
+        # the difference lies in (scope None: the failure has no location inside the document)
+        tags = sorted(docmp.applicable(excuse_of.get(i, {}), scope)) + [what]
         k = next((k for k in known for t in tags if k['match'].get('contains') and k['match']['contains'] in t), None)
         if k:
             seen_known.add(k['id'])
@@ -105,7 +107,7 @@ def run(res, args):
         # language from the XML side
         try:
             lid = int(xt[acc.index(i)][6:].split(':')[0])
-            excuse_of[i] = docmp.excuses(docmp.Norm(d, langs[lid]), docmp.doc_of_expat(sr)[2])
+            excuse_of[i] = docmp.excuses_scoped(docmp.Norm(d, langs[lid]), docmp.doc_of_expat(sr)[2])
         except Exception:
             pass
         report(i, 'the WBXML produced from an accepted document is rejected by the WBXML→XML conversion', r2[acc.index(i)])
@@ -116,14 +118,14 @@ def run(res, args):
         ok1, _, sdoc = docmp.doc_of_expat(sr)
         ok2, _, ddoc = docmp.doc_of_expat(dr)
         norm = docmp.Norm(d, langs[lang_of[i]])
-        excuse_of[i] = docmp.excuses(norm, sdoc)
+        excuse_of[i] = docmp.excuses_scoped(norm, sdoc)
         if not ok2:
             report(i, 'the round-tripped XML is not well-formed', x1[i][:300])
             continue
-        diff = docmp.compare(norm, sdoc, ddoc, opts[i][1] == 1)
+        diff = docmp.compare_at(norm, sdoc, ddoc, opts[i][1] == 1)
         stats['compared'] += 1
         if diff:
-            report(i, 'document changed: ' + diff, x1[i][:400])
+            report(i, 'document changed: ' + diff[0], x1[i][:400], scope=diff[1])
         if i in x2:
             stats['idempotence_checked'] += 1
             if x2[i] != x1[i]:
